@@ -49,7 +49,7 @@ SetSeq(ss) == [i \in DOMAIN ss |-> Rng(ss[i])]
 DirClauses(e) ==
     LET V == Rng(e.V) E == PairsOf(e.E) o == e.o IN
     << <<"TarjanSCC", FamEq(o.sccs, SCCs(V, E))>>,
-       <<"Sort", IsSortOutput(V, E, o.sort, SetSeq(o.cyc)) /\ o.sorterr = (CyclicComps(V, E) # {}) /\ o.cycbyid>>,
+       <<"Sort", IsSortOutput(V, E, o.sort, SetSeq(o.cyc)) /\ o.sorterr = (CyclicComps(V, E) # {}) /\ o.cycbyid /\ o.errmsg>>,
        <<"SortStabilized", IsSortOutput(V, E, o.stab, SetSeq(o.stabcyc))>>,
        <<"SortStabilized-desc", IsSortOutput(V, E, o.stabr, SetSeq(o.stabrcyc))>>,
        <<"DirectedCyclesIn", e.docyc => /\ o.cycraw /\ NoDup(o.cycles) /\ Rng(o.cycles) = ElemCycles(V, E)>> >>
@@ -63,9 +63,15 @@ ForestOK(V, E, W, f) ==
     /\ T \subseteq UEdges(E) /\ \A i \in DOMAIN f.t : W[<<f.t[i][1], f.t[i][2]>>] = f.t[i][3]
     /\ IsSpanningForest(V, E, T)
     /\ f.w = SumF(W, T) /\ f.w = MSFWeight(V, E, W)
+\* coloring.Sets of a returned colouring: one entry <colour, members...> per colour used, the members exactly the
+\* nodes of that colour, each once, listed in ascending id order
+SetsOK(c, col) ==
+    /\ c.setsbyid /\ Len(c.sets) = Cardinality(ColourClasses(col))
+    /\ {<<c.sets[i][1], Rng(Tail(c.sets[i]))>> : i \in DOMAIN c.sets} = ColourClasses(col)
+    /\ \A i \in DOMAIN c.sets : NoDup(Tail(c.sets[i]))
 ColOK(V, E, c) ==
     LET col == Fn(c.col) IN
-    /\ c.err = "" /\ Len(c.col) = Cardinality(V)
+    /\ c.err = "" /\ Len(c.col) = Cardinality(V) /\ SetsOK(c, col)
     /\ IsProper(V, E, col)
     /\ c.k = NColours(col)
     /\ c.exact => ~KColourable(V, E, c.k - 1)
@@ -109,7 +115,7 @@ PartClauses(e) ==
     IN << <<"partial-colouring", V # {} => \A i \in DOMAIN e.cols :
              LET c == e.cols[i] col == Fn(c.col) IN
              IF ok THEN /\ c.err = "" /\ Len(c.col) = Cardinality(V) /\ IsProper(V, E, col)
-                        /\ Extends(col, part) /\ c.k = NColours(col)
+                        /\ Extends(col, part) /\ c.k = NColours(col) /\ SetsOK(c, col)
              ELSE c.err = "invalid-partial">> >>
 
 (* ---- colourings of graphs beyond the enumeration bound (18..32 nodes) ---- *)
@@ -120,7 +126,7 @@ PartClauses(e) ==
 \* validated right here).  That the least k is the chromatic number is ChromaticSearch.tla's part.
 ChromCallOK(V, E, c) ==
     LET col == TLCEval(Fn(c.col)) IN
-    /\ c.err = "" /\ Len(c.col) = Cardinality(V) /\ IsProper(V, E, col) /\ c.k = NColours(col)
+    /\ c.err = "" /\ Len(c.col) = Cardinality(V) /\ IsProper(V, E, col) /\ c.k = NColours(col) /\ SetsOK(c, col)
 ChromAlgs == <<"DsaturExact", "Dsatur", "Randomized", "RecursiveLargestFirst", "SanSegundo", "WelshPowell">>
 ChromClauses(e) ==
     LET V == Rng(e.V) E == TLCEval(Sym(PairsOf(e.E)))
